@@ -6,7 +6,8 @@ from common import sx, rng_for
 ALPHABET = [('list', [1], True), ('list', [0, 1], True), ('list', [1, 2], True), ('min', 0, True), ('min', 1, True),
             ('list', [2], True), ('list', [0, 2], True), ('list', [1, 3], True), ('list', [0, 1, 2], True),
             ('list', [1], False), ('list', [0, 1], False), ('min', 0, False), ('min', 1, False), ('list', [1, 2], False),
-            ('min', 2, True), ('list', [0], True), ('list', [0, 1, 2, 3], False), ('list', [2, 3], True)]
+            ('min', 2, True), ('list', [0], True), ('list', [0, 1, 2, 3], False), ('list', [2, 3], True),
+            ('list', [0, 1, 2, 3], True), ('list', [1, 2, 3], True), ('list', [0, 1, 2, 3, 4], True)]
 
 
 def py_node(spec):
